@@ -121,3 +121,64 @@ impl HSet for BitSet8 {
         (0..8).collect()
     }
 }
+
+/// versions 0..2 as a bit mask: a universe so small that the versions of one package can cover it (a merged
+/// dependent set then equals `full()`, a singleton of a one-version package may too)
+#[derive(Debug, Clone, PartialEq, Eq, Hash)]
+pub struct BitSet2(pub u8);
+
+impl fmt::Display for BitSet2 {
+    fn fmt(&self, f: &mut fmt::Formatter<'_>) -> fmt::Result {
+        let items: Vec<String> = (0..2).filter(|i| self.0 >> i & 1 == 1).map(|i| i.to_string()).collect();
+        write!(f, "{{{}}}", items.join(","))
+    }
+}
+
+impl VersionSet for BitSet2 {
+    type V = u32;
+    fn empty() -> Self {
+        BitSet2(0)
+    }
+    fn singleton(v: u32) -> Self {
+        BitSet2(if v < 2 { 1 << v } else { 0 })
+    }
+    fn complement(&self) -> Self {
+        BitSet2(!self.0 & 3)
+    }
+    fn intersection(&self, other: &Self) -> Self {
+        BitSet2(self.0 & other.0)
+    }
+    fn contains(&self, v: &u32) -> bool {
+        *v < 2 && self.0 >> *v & 1 == 1
+    }
+}
+
+impl HSet for BitSet2 {
+    const KIND: &'static str = "bits2";
+    fn to_machine(&self) -> String {
+        self.0.to_string()
+    }
+    fn from_machine(s: &str) -> Self {
+        BitSet2(s.trim().parse::<u8>().unwrap() & 3)
+    }
+    fn from_display(s: &str) -> Option<Self> {
+        let inner = s.strip_prefix('{')?.strip_suffix('}')?;
+        let mut m = 0u8;
+        if !inner.is_empty() {
+            for x in inner.split(',') {
+                let i: u32 = x.parse().ok()?;
+                if i >= 2 {
+                    return None;
+                }
+                m |= 1 << i;
+            }
+        }
+        Some(BitSet2(m))
+    }
+    fn family(rng: &mut Rng) -> Self {
+        BitSet2([0u8, 1, 2, 3, 3, 1, 2, 3][rng.below(8) as usize])
+    }
+    fn universe() -> Vec<u32> {
+        (0..2).collect()
+    }
+}
